@@ -581,6 +581,11 @@ fn c06_hist(input: &Input, obs: &mut Obs) -> Result<(), Fail> {
                     }
                 }
                 calls.push(c);
+                if s.chance(14) {
+                    // the announced length need not be the body's: removed, lowered, raised
+                    calls.push(Call::SetContentLength(match s.below(5) { 0 => None, 1 => Some(0), 2 => Some(3), 3 => Some(-1), _ => Some(100_000) }));
+                    obs.label("content_length_set_independently_of_the_body");
+                }
             }
             ops.push(WOp::Enq(v, code, calls));
         } else if s.chance(8) {
